@@ -526,6 +526,24 @@ VDeleteCut(n, id) ==
   /\ ~dirty
   /\ UNCHANGED <<snap, dev, dirty>>
 
+\* VDelete with a snapshot requested while the cascade is running, then the death of the process. The cascade counts
+\* as a write in flight (4330e40): the snapshot captures only after it has finished, so what the restart reads is the
+\* image of the COMPLETED delete -- an image of a half-done cascade would have dropped the VDEL record with the only
+\* instruction to finish it. (Replayed as a refusal probe: the snapshot is requested with the cascade parked at a hook.)
+VDeleteSnapCut(n, id) ==
+  LET ix == mem.ix[n]
+      ts == clock + 1
+      g1 == Cascade(G(mem), GId(n, id), ts)
+      m1 == [mem EXCEPT !.ix[n] = IxDelete(ix, id), !.out = g1.out, !.in = g1.in] IN
+  /\ ~CoreVacuum /\ ~dirty
+  /\ Exists(n) /\ Live(ix, id)
+  /\ clock' = ts
+  /\ snap' = <<m1>> /\ file' = <<>>
+  /\ mem' = Recover(<<m1>>, <<>>)
+  /\ delat' = IF GId(n, id) \in GNodes THEN [delat EXCEPT ![GId(n, id)] = ts] ELSE delat
+  /\ Log([op |-> "VDeleteSnapCut", n |-> n, id |-> id, res |-> "ok"])
+  /\ UNCHANGED <<dev, dirty>>
+
 VSetMetadata(n, id, k, v) ==
   LET ix == mem.ix[n]
       rec == [op |-> "VSetMetadata", n |-> n, id |-> id, k |-> k, v |-> v] IN
@@ -807,6 +825,7 @@ Next ==
   \/ \E n \in Names, id \in Ids : VDelete(n, id)
   \/ \E n \in Names, x \in GNodes \ Ids : VDeleteGhost(n, x)
   \/ \E n \in Names, id \in Ids : VDeleteCut(n, id)
+  \/ \E n \in Names, id \in Ids : VDeleteSnapCut(n, id)
   \/ \E n \in Names, id \in Ids, k \in MKeys, v \in MVals : VSetMetadata(n, id, k, v)
   \/ \E n \in Names, id \in Ids, c \in AccSeeds : VSetMetadata(n, id, "_access_count", AccStr[c])
   \/ \E n \in Names, id \in Ids : VReinforce(n, id)
@@ -875,7 +894,7 @@ Inv_NoEdgeToDead ==
      /\ \A e \in mem.in  : (e.d = 0 /\ (e.s = x \/ e.t = x)) => e.c > delat[x]
 \* C12: a delete leaves the edges among other nodes untouched
 Prop_DeleteTouchesOnlyIncident ==
-  [][ (Len(ops') = Len(ops) + 1 /\ ops'[Len(ops')].op \in {"VDelete", "VDeleteCut"} /\ ops'[Len(ops')].res = "ok")
+  [][ (Len(ops') = Len(ops) + 1 /\ ops'[Len(ops')].op \in {"VDelete", "VDeleteCut", "VDeleteSnapCut"} /\ ops'[Len(ops')].res = "ok")
         => LET x == GId(ops'[Len(ops')].n, ops'[Len(ops')].id) IN
            {e \in mem.out : e.s # x /\ e.t # x} = {e \in mem'.out : e.s # x /\ e.t # x} ]_vars
 
@@ -901,7 +920,7 @@ Bound == /\ Len(file) <= MaxFile
 \* the history is not part of the state identity
 \* (a delete whose cascade is cut by a crash leads to the same state as the complete delete -- that is the property --
 \*  so the kind of the last delete is part of the state identity; otherwise BFS keeps the VDelete history only)
-CutMark == IF ops # <<>> /\ ops[Len(ops)].op \in {"VDeleteCut", "SnapshotCut"} THEN ops[Len(ops)].op ELSE "none"
+CutMark == IF ops # <<>> /\ ops[Len(ops)].op \in {"VDeleteCut", "SnapshotCut", "VDeleteSnapCut"} THEN ops[Len(ops)].op ELSE "none"
 View == <<mem, snap, file, clock, dev, delat, dirty, CutMark>>
 
 \* C05 corpus: every (reachable state, rejected call) pair is its own state, emitted when found and not expanded
